@@ -48,7 +48,7 @@ def poly(tr, N, scale):
 def case_(draw, tier, backends, Nmax, Jmax):
     kind = draw(st.sampled_from(["invariant", "invariant", "sensitive"]))
     orders = (0, 1, 2) if kind == "invariant" else (-1, 0, 1, 2)
-    N = draw(st.one_of(st.integers(16, 120), gens.loguniform_int(16, Nmax)))
+    N = draw(st.one_of(st.integers(16, 120), gens.loguniform_int(16, Nmax), gens.loguniform_int(min(128, Nmax), Nmax)))
     cfg = draw(gens.analysis_config(N, backends=(backends[0],), orders=orders, Jmax=Jmax, Kmax=20, custom=True))
     mode = draw(st.sampled_from(["auto", "csd", "csd"]))
     case = {"N": N, "mode": mode, "cfg": cfg, "fs": draw(st.sampled_from([1.0, 10.0, 0.37])), "kind": kind,
@@ -57,7 +57,8 @@ def case_(draw, tier, backends, Nmax, Jmax):
                         else gens.record(N, kinds=["noise", "ar1", "sines", "impulse"], scale=False)),
             "how": draw(st.sampled_from(["full", "full", "single"]))}
     if case["how"] == "single":
-        case["L"] = draw(st.one_of(st.integers(1, min(N, 8)), st.integers(1, N), st.sampled_from([64, 128, 256, 512, 1024]).map(lambda v: min(v, N))))
+        case["L"] = draw(st.one_of(st.integers(1, min(N, 8)), st.integers(1, N), st.sampled_from([64, 128, 256, 512, 1024]).map(lambda v: min(v, N)),
+                                   st.integers(1, max(1, N // 128)).map(lambda k: min(128 * k, N))))      # multiples of a block size
         case["fbin"] = draw(st.floats(0.0, 0.5))
     return case
 
